@@ -50,8 +50,7 @@ Definition twin_binding (f : fn) (c : call) : outcome binding :=
 
 (* the supplied values the statement of C03 names: explicit keywords, omitted-but-defaulted
    parameters, elements of *args, values of **kwargs; each with the annotation it is declared under.
-   (A positional value for a named parameter is not in the list: C05 forbids such calls, and where
-   they are allowed the text of C03 does not mention them.) *)
+   (Positional values bound to named parameters are `positional_values` below: c03_positional_bad.) *)
 Definition supplied_of (f : fn) (c : call) (b : binding) : list (option ann * value) :=
   flat_map (fun ns =>
     match find_param (fst ns) (declared f) with
@@ -90,7 +89,6 @@ Section Spec.
     | Ok b => existsb (fun av => bad (fst av) (snd av)) (supplied_of f c b)
     | Raise _ => false
     end.
-  Definition c03_args_bad (f : fn) (c : call) : bool := c03_supplied_bad f c || setter_value_bad f c.
   (* C03, second sentence: the produced value does not conform to the return annotation *)
   Definition c03_result_bad (f : fn) (v : value) : bool := bad (f_ret f) v.
 
@@ -111,6 +109,14 @@ Section Spec.
                         | Some p, BOne (SArg i) => map (fun v => (p_ann p, v)) (opt_list (nth_error (c_args c) i))
                         | _, _ => []
                         end) b.
+
+  (* ... "whichever parameter position it is in": a positional value CPython binds to a named parameter counts as well *)
+  Definition c03_positional_bad (f : fn) (c : call) : bool :=
+    match twin_binding f c with
+    | Ok b => existsb (fun av => bad (fst av) (snd av)) (positional_values f c b)
+    | Raise _ => false
+    end.
+  Definition c03_args_bad (f : fn) (c : call) : bool := c03_supplied_bad f c || setter_value_bad f c || c03_positional_bad f c.
 
   Definition c04_args_ok (f : fn) (c : call) : bool :=
     match twin_binding f c with
@@ -145,12 +151,19 @@ Fixpoint has_iter (v : value) : bool :=
   | VDict kvs | VDefaultDict kvs | VOrderedDict kvs | VItemsView kvs => anyp kvs
   | _ => false
   end.
-(* no supplied value is a one-shot iterator that the check under its annotation would exhaust (guard of the K1 finding:
-   exactly an iterator passed directly under typing.Iterable[...], see Model.Pedantic.consumes_model) *)
+(* no supplied value contains a one-shot iterator the check under its annotation goes through, at any depth (guard of the K1
+   finding; Model.Pedantic.consumes_model follows the traversal of the checker) *)
 Definition no_iterator_consumed (cfg : checker_cfg) (f : fn) (c : call) : bool :=
   match twin_binding f c with
-  | Ok b => forallb (fun av => match fst av with Some a => negb (consumes_model cfg a (snd av)) | None => true end) (supplied_of f c b)
+  | Ok b => forallb (fun av => match fst av with Some a => negb (consumes_model cfg a (snd av)) | None => true end)
+                   (supplied_of f c b ++ positional_values f c b)
   | Raise _ => true
+  end.
+(* ... nor does the value the body returns, under the return annotation *)
+Definition result_intact (cfg : checker_cfg) (f : fn) (r : outcome value) : bool :=
+  match f_ret f, r with
+  | Some a, Ok v => negb (consumes_model cfg a v)
+  | _, _ => true
   end.
 
 Definition no_oneshot_iter (f : fn) (c : call) : bool :=
